@@ -138,6 +138,27 @@ pub fn run_case(_ctx: &Ctx, case: &Value, tag: usize, rep: &mut Report, mb: &mut
                             if what != "ascii" && (m + n) % 2 == 1 { continue; }
                             let g = Gram::Json(json!({"type":"string","minLength":m,"maxLength":n}));
                             check_counts(&w, &g, unit, b"\"", b"\"", b"", m, Some(n), upto, &format!("json-length-{what}"), rep, case);
+                            // the same bounds on *literals* (enum members): the compiler decides them once, from the literal's length
+                            if what != "escape" && n <= 6 {
+                                let unit_s = String::from_utf8_lossy(unit).to_string();
+                                let lits: Vec<String> = (0..=upto).map(|k| unit_s.repeat(k)).collect();
+                                let g = Gram::Json(json!({"enum": lits, "minLength": m, "maxLength": n}));
+                                let base = w.matcher(&g);
+                                if base.is_error() {
+                                    rep.fail("spec", "c09:json-literal-length-rejected", format!("enum of literals with min/maxLength {m},{n} rejected: {}", crate::eng::err_class(&base.get_error().unwrap_or_default())), json!({"case": case, "grammar": g.to_json()}));
+                                    continue;
+                                }
+                                for (k, lit) in lits.iter().enumerate() {
+                                    rep.evaluations += 1;
+                                    let text = serde_json::to_string(lit).unwrap();
+                                    let a = accepts(&base, text.as_bytes());
+                                    let exp = k >= m && k <= n;
+                                    if a != exp {
+                                        rep.fail("spec", "c09:json-literal-length", format!("enum literal of {k} characters ({what}) under min/maxLength {m},{n}: accepted={a}, expected {exp}"), json!({"case": case, "grammar": g.to_json(), "literal": lit}));
+                                    }
+                                }
+                                rep.count(&format!("json-literal-length-{what}"));
+                            }
                         }
                     }
                     2 => {
